@@ -2,6 +2,7 @@ use crate::ctx::Tier;
 use serde_json::Value;
 
 pub mod c01;
+pub mod c02;
 pub mod c16;
 
 pub fn load_case(path: &str) -> Value {
@@ -32,6 +33,7 @@ pub fn replay_exit(prop: &str, path: &str, sigs: Vec<String>) -> ! {
 pub fn dispatch(id: &str, tier: Tier, replay: Option<&str>) {
     match id {
         "c01" => c01::run(tier, replay),
+        "c02" => c02::run(tier, replay),
         "c16" => c16::run(tier, replay),
         _ => {
             eprintln!("unknown check {id}");
